@@ -32,6 +32,7 @@ class Prop:
     lean_modules: list[str] = []     # VivModel.Props.* modules holding the property theorems
     build_targets: list[str] = []    # further modules the driver imports
     driver: str | None = None        # Driver/<driver>.lean
+    extra_drivers: list[str] = []    # further drivers some cases are sent to (see driver_of)
     technique = "Lean 4 proof + correspondence"
     trusted_extra: list[str] = []
     partial: str | None = None       # what part of the property lives in the runtime (explored, not proved)
@@ -40,6 +41,11 @@ class Prop:
     case_timeout = 60                # seconds per case
     workers = 1                      # >1: run_impl in a fork pool
     rule = "distinct = different canonical case hash; non-trivial = prop-specific predicate on the observed behaviour"
+
+    def driver_of(self, case):
+        """the Lean driver that interprets this case's model lines (default: the property's own driver); a check that also
+        runs cases of another model (e.g. the composed WHOLE model) names that model's driver here"""
+        return self.driver
 
     def boundary(self) -> list:
         return []
@@ -161,7 +167,7 @@ def evaluate(prop: Prop, cases: list):
             sys.stderr.write(f"[{prop.id}] infrastructure error, no verdict: {o['__infra__'][:600]}\n")
             sys.exit(2)
     recs = []
-    all_lines, spans = [], []
+    lines_of: dict = {}          # driver -> all lines sent to it; a case's lines go to the driver `prop.driver_of(case)` names
     for c, o in zip(cases, obs):
         rec = {"case": c, "obs": o, "failures": [], "disagreements": [], "lines": []}
         if isinstance(o, dict) and o.get("__timeout__"):
@@ -177,23 +183,31 @@ def evaluate(prop: Prop, cases: list):
                 rec["lines"] = list(prop.model_lines(c, o)) if prop.driver else []
             except Exception as e:  # noqa: BLE001
                 rec["disagreements"].append(f"model_lines crashed: {type(e).__name__}: {e}")
-        spans.append((len(all_lines), len(all_lines) + 1 + len(rec["lines"])))
-        all_lines.append("begin")
-        all_lines.extend(rec["lines"])
+        drv = prop.driver_of(c) if prop.driver else None
+        buf = lines_of.setdefault(drv, [])
+        rec["_drv"], rec["_span"] = drv, (len(buf), len(buf) + 1 + len(rec["lines"]))
+        buf.append("begin")
+        buf.extend(rec["lines"])
         recs.append(rec)
     driver_error = None
     if prop.driver:
-        try:
-            replies = leanside.run_driver(prop.driver, all_lines)
-            for rec, (a, b) in zip(recs, spans):
-                if rec["lines"]:
+        for drv, all_lines in lines_of.items():
+            try:
+                replies = leanside.run_driver(drv, all_lines)
+                for rec in recs:
+                    if rec["_drv"] != drv or not rec["lines"]:
+                        continue
+                    a, b = rec["_span"]
                     try:
                         rec["disagreements"] += list(prop.compare(rec["case"], rec["obs"], replies[a + 1:b]))
                     except Exception as e:  # noqa: BLE001
                         rec["disagreements"].append(f"compare crashed: {type(e).__name__}: {e}")
                     rec["replies"] = replies[a + 1:b]
-        except (leanside.DriverError, Exception) as e:  # noqa: BLE001
-            driver_error = str(e)[-3000:]
+            except (leanside.DriverError, Exception) as e:  # noqa: BLE001
+                driver_error = ((driver_error + "\n") if driver_error else "") + str(e)[-3000:]
+    for rec in recs:
+        rec.pop("_drv", None)
+        rec.pop("_span", None)
     return recs, driver_error
 
 
@@ -264,7 +278,7 @@ def _run_check_locked(prop, tier, seed, t0, info, broken, tr) -> int:
             names += leanside.locate_broken(f, b["broken_at"])
         broken.append("theorems that no longer check: " + ", ".join(sorted(set(names)) or ["<build error>"]) + "\n" + b["output"][-1500:])
     else:
-        audit = leanside.audit(prop.id, prop.lean_modules, [prop.driver] if prop.driver else [])
+        audit = leanside.audit(prop.id, prop.lean_modules, ([prop.driver] if prop.driver else []) + list(prop.extra_drivers))
         info["audit"] = {k: audit[k] for k in ("ok", "forbidden", "nonstandard", "wall_s")}
         if not audit["ok"]:
             broken.append("audit: " + "; ".join(audit["forbidden"] + audit["nonstandard"]) + audit.get("raw_tail", ""))
